@@ -20,10 +20,11 @@ RULE = ("one run = one generated document, 1-3 (line, clone) pairs of any record
 PROBES = ["connected_original", "standalone_original", "edit_clone", "edit_original", "inplace_list",
           "inplace_cigar", "inplace_oriented", "inplace_json", "inplace_numarray", "header_clone",
           "edit_applied", "inplace_lastpos", "header_clone_merged",
-          "clone_of_complement", "clone_of_line_with_line_objects", "inplace_fieldarray_element"]
+          "clone_of_complement", "clone_of_line_with_line_objects", "inplace_fieldarray_element",
+          "group_takes_item_object"]
 EDITS = ["set_tag", "del_tag", "set_pos", "list_append", "list_pop", "cigar_op", "oriented", "json_inplace",
          "numarray_append", "fieldarray_append", "set_datatype", "trace_inplace", "list_item_inplace", "lastpos_inplace",
-         "fieldarray_elem_inplace"]
+         "fieldarray_elem_inplace", "group_take_item", "group_take_item"]
 
 
 def gen(streams, tier, i):
@@ -46,7 +47,15 @@ def gen(streams, tier, i):
         for _e in range(er.randint(1, 10)):
             ops.append({"op": "edit", "side": er.choice(["clone", "orig"]), "e": er.choice(EDITS),
                         "j": er.randrange(1000), "v": er.choice([1, 7, "zz", "+", "-", "A", 2.5])})
-    return {"cfg": {"version": doc["version"], "vlevel": cfg.choice([0, 1, 1, 2, 3])}, "lines": doc["lines"], "ops": ops}
+    drop = None
+    if cfg.random() < 0.2:
+        # the definition of one segment never arrives: the lines that mention it refer to a placeholder, which can
+        # be cloned like any line
+        segidx = [j for j, ln in enumerate(doc["lines"]) if ln.startswith("S\t")]
+        if segidx:
+            drop = cfg.choice(segidx)
+    return {"cfg": {"version": doc["version"], "vlevel": cfg.choice([0, 1, 1, 2, 3]), "drop": drop}, "lines": doc["lines"],
+            "ops": ops}
 
 
 def gfa_lines_held(line):
@@ -125,9 +134,26 @@ def mutable_values(line):
     return out
 
 
-def apply_edit(line, op, st, connected):
+def apply_edit(line, op, st, connected, other=None):
     """Perform one edit on 'line'. Returns a description or None if not applicable."""
     e, j, v = op["e"], op["j"], op["v"]
+    if e == "group_take_item":
+        # an ordered group (not connected) is given the item object the other line holds, then edits its new item
+        if line.record_type != "O" or line.is_connected() or other is None or other.is_connected():
+            return None
+        src = core.call(other.get, "items")
+        if not src.ok or not isinstance(src.value, list) or not src.value:
+            return None      # (an earlier edit may have put something else into the field)
+        it = src.value[j % len(src.value)]
+        if not isinstance(it, gfapy.OrientedLine):
+            return None
+        st.count("probe.group_takes_item_object")
+
+        def g_():
+            (line.append_item if j % 2 else line.prepend_item)(it)
+            mine = line.items[-1] if j % 2 else line.items[0]
+            mine.orient = "-" if mine.orient == "+" else "+"
+        return core.call(g_), "append_item(<item object of the other line>), then flip of the new item"
     mv = mutable_values(line)
     tags = list(line.tagnames)
     if e == "set_tag":
@@ -264,7 +290,16 @@ def apply_edit(line, op, st, connected):
 def run(scn, st):
     cfg = scn["cfg"]
     w = World(st)
-    o = w.construct("list", scn["lines"], vlevel=cfg["vlevel"])
+    if cfg.get("drop") is not None:
+        def build():
+            g_ = gfapy.Gfa(vlevel=cfg["vlevel"], version=cfg["version"])
+            for j, ln in enumerate(scn["lines"]):
+                if j != cfg["drop"]:
+                    g_.add_line(ln)
+            return g_
+        o = core.call(build)
+    else:
+        o = w.construct("list", scn["lines"], vlevel=cfg["vlevel"])
     if not o.ok:
         return
     g = o.value
@@ -292,6 +327,10 @@ def run(scn, st):
                     return
                 orig = lines[op["i"] % len(lines)]
                 connected = op["connected"]
+                virt = [l for l in ob.reachable_lines(g) if l.virtual and l.record_type == "S"]
+                if virt and op["i"] % 3 == 0:
+                    orig = virt[op["i"] % len(virt)]      # a placeholder
+                    connected = True
                 if id(orig) in dirty and not connected:
                     # (a stand-alone copy of a line that an earlier client edit may have made invalid would be
                     # built from the text of an invalid line: out of the claim, use the line itself)
@@ -363,7 +402,7 @@ def run(scn, st):
             target, other = (clone, orig) if side == "clone" else (orig, clone)
             pre_other = sstr(other)
             pre_g = ob.observe(g) if side == "clone" else None
-            res = apply_edit(target, op, st, connected)
+            res = apply_edit(target, op, st, connected, other)
             if res is None:
                 continue
             out, desc = res
